@@ -49,6 +49,20 @@ def replay_gridded(args):
             model = model.copy() if idx % 8 == 0 else model
         x0, y0, flux = c['x0'] / 2.0, c['y0'] / 2.0, 3.0
         model.x_0, model.y_0, model.flux = x0, y0, flux
+        other = 1 if ov != 1 else 3
+        if idx % 5 == 2:
+            # the public oversampling setter used AFTER evaluations with another pixel scale at the very same place
+            model = GriddedPSFModel(NDData(data, meta={'grid_xypos': xy, 'oversampling': other}), fill_value=fill)
+            model.x_0, model.y_0, model.flux = x0, y0, flux
+            model(np.array([[x0, x0 + 0.5]]), np.array([[y0, y0]]))
+            model.oversampling = ov
+            sig = dict(sig, history='oversampling_set_after_evaluation')
+        elif idx % 5 == 3:
+            # a copy given another oversampling and evaluated first: the original is not affected
+            cp = model.copy(); cp.oversampling = other
+            cp.x_0, cp.y_0 = x0, y0
+            cp(np.array([[x0, x0 + 0.5]]), np.array([[y0, y0]]))
+            sig = dict(sig, history='copy_with_other_oversampling_evaluated_first')
         ox, oy = (nx - 1) / 2.0, (ny - 1) / 2.0
         yi, xi = np.mgrid[:ny, :nx]
         xs = x0 + (xi - ox) / ovx
